@@ -13,6 +13,7 @@ ap.add_argument('dir')
 ap.add_argument('--props')
 ap.add_argument('--verif', default=os.path.dirname(os.path.dirname(os.path.abspath(__file__))))
 ap.add_argument('--skip-baseline', action='store_true')
+ap.add_argument('--out', default='result.json')
 a = ap.parse_args()
 d = os.path.abspath(a.dir)
 meta = json.load(open(os.path.join(d, 'meta.json')))
@@ -46,7 +47,7 @@ try:
                                 'out': '\n'.join(lines[-4:])[:700]}
 finally:
     subprocess.run(['git', '-C', '/repo', 'worktree', 'remove', '--force', wt])
-json.dump(res, open(os.path.join(d, 'result.json'), 'w'), indent=1)
+json.dump(res, open(os.path.join(d, a.out), 'w'), indent=1)
 caught = [p for p, v in res['checks'].items() if v['rc'] == 1]
 print(json.dumps({'dir': os.path.basename(d), 'applies': res.get('applies'), 'baseline': res.get('baseline'),
                   'demo': [res.get('demo_clean'), res.get('demo_changed')], 'caught_by': caught,
